@@ -39,7 +39,7 @@ ASSUMPTIONS = [
     "step budget 200000 + 400 interpreter events per input octet per run (readers use ~10 per octet): exceeding it is reported as non-termination",
     "the clean suffix is judged by the C16 oracle on a fresh reader fed the identical stream (readers are deterministic)",
 ]
-MUST_FIRE = {"quick": ["noise_nonascii_ident", "noise_bad_end_line", "noise_bang_in_ident", "noise_faulty_frames", "target_proto_payload", "target_proto_message", "messages_with_accessors_checked"], "thorough": ["noise_nonascii_ident", "noise_bad_end_line", "noise_bang_in_ident", "noise_faulty_frames", "target_proto_payload", "target_proto_message", "messages_with_accessors_checked"]}
+MUST_FIRE = {"quick": ["noise_nonascii_ident", "noise_bad_end_line", "noise_bang_in_ident", "noise_faulty_frames", "target_proto_payload", "target_proto_message", "messages_with_accessors_checked", "bystander_reader_instance"], "thorough": ["noise_nonascii_ident", "noise_bad_end_line", "noise_bang_in_ident", "noise_faulty_frames", "target_proto_payload", "target_proto_message", "messages_with_accessors_checked"]}
 
 TARGETS = ["hdlc", "hdlc", "p1", "p1", "p1", "proto_payload", "proto_message"]
 
@@ -85,7 +85,12 @@ def gen(rng, tier, index):
     total = len(c16.wire_of(sub)[0])
     hot = [len(noise), len(noise) + 1] + [i + 1 for i, b in enumerate(noise) if b in (0x2F, 0x21, 0x0A, 0x7E, 0x7D)][:200]
     sub["cuts"] = fragment.draw(rng, total, hot)
-    yield {"target": target if target in ("proto_payload", "proto_message") else family, "cands": rng.choice(["HP", "PH"]), "c16": sub, "kinds": kinds}
+    sc = {"target": target if target in ("proto_payload", "proto_message") else family, "cands": rng.choice(["HP", "PH"]), "c16": sub, "kinds": kinds}
+    if rng.random() < 0.2:
+        # another connection in the same process, same reader class, its own (partly clean) traffic
+        other = p1_gen.build(p1_gen.readout_spec(rng, None, "small")) if family == "p1" else b"\x7e" + hdlc_gen.build(hdlc_gen.frame_fields(rng, small=True)) + b"\x7e"
+        sc["bystander"] = (other * 3 + (p1_gen.noise(rng, 60)[0] if family == "p1" else hdlc_gen.noise(rng, cfg[0], 60)[0])).hex()
+    yield sc
 
 
 class _Transport(asyncio.Transport):
@@ -130,10 +135,17 @@ def execute(sc):
     loop = None
     try:
         with stepbudget.StepBudget(budget) as sb:
+            by = None
+            if sc.get("bystander"):
+                fam = sub["reader"]
+                by = reader_rig.Bystander(reader_rig.make_reader(fam, tuple(sub["cfg"]) if sub["cfg"] else None), bytes.fromhex(sc["bystander"]))
+                probes["bystander_reader_instance"] = 1
             if target in ("hdlc", "p1"):
                 reader = reader_rig.make_reader(target, tuple(sub["cfg"]) if sub["cfg"] else None)
                 pos = 0
                 for idx, chunk in enumerate(chunks):
+                    if by is not None:
+                        by.step(idx)
                     try:
                         msgs = reader.read(chunk)
                     except Exception as ex:  # noqa: BLE001
@@ -171,6 +183,8 @@ def execute(sc):
                 proto.connection_made(_Transport())
                 pos = 0
                 for idx, chunk in enumerate(chunks):
+                    if by is not None:
+                        by.step(idx)
                     try:
                         proto.data_received(chunk)
                     except Exception as ex:  # noqa: BLE001
@@ -219,6 +233,8 @@ def summarise(sc):
 
 def candidates(sc):
     sub = sc["c16"]
+    if sc.get("bystander"):
+        yield {k: v for k, v in copy.deepcopy(sc).items() if k != "bystander"}
     if sub["cuts"]["m"] != "whole":
         c = copy.deepcopy(sc)
         c["c16"]["cuts"] = {"m": "whole"}
